@@ -213,6 +213,27 @@ Proof.
     subst j. rewrite H. change (order 0) with 0%nat. unfold blk. now rewrite nth_upd_same by (cbn; lia).
 Qed.
 
+Lemma acf_block_k base K Ss Se Al b blk q more : (Ss <= Se)%nat -> (Se <= 63)%nat ->
+  Forall (fun v => Z.abs v <= 32768) (acf_band Ss Se Al b) ->
+  carriesQ q (rekey base (enc_acf_block_a K Ss Se Al b) ++ more) ->
+  exists q', dec_acf_a qdec (next_k base) K Se Al 130 Ss true blk q = Some (acf_res Ss Se Al b blk, q') /\ carriesQ q' more.
+Proof.
+  intros H1 H2 HF Hc.
+  destruct (acf_block_a_rt qdec (next_k base) (carriesK base more) (carriesK_step base more) K Se Al Ss b blk [] q H1 H2 HF) as [q' [Hd Hc']].
+  { unfold carriesK. rewrite app_nil_r. exact Hc. }
+  exists q'. split; [exact Hd|exact Hc'].
+Qed.
+
+Lemma dc_k base ctx L U v ds ctx' q more : Z.abs v <= 32768 -> enc_dc_arith ctx L U v = (ds, ctx') ->
+  carriesQ q (rekey base ds ++ more) ->
+  exists q', dec_dc_arith qdec (next_k base) ctx L U q = Some (v, ctx', q') /\ carriesQ q' more.
+Proof.
+  intros Hv He Hc.
+  destruct (arith_dc_roundtrip qdec (next_k base) (carriesK base more) (carriesK_step base more) ctx L U v ds ctx' [] q Hv He) as [q' [Hd Hc']].
+  { unfold carriesK. rewrite app_nil_r. exact Hc. }
+  exists q'. split; [exact Hd|exact Hc'].
+Qed.
+
 Fixpoint amcu_ok (mm : list nat) (blocks : list (list Z)) (ldc : list Z) : Prop :=
   match mm, blocks with
   | ci :: mt, b :: bt =>
@@ -234,18 +255,13 @@ Proof.
     destruct (enc_dc_arith (nthZ ctx ci) (a_L (cmp cs ci)) (a_U (cmp cs ci)) (nth 0%nat b 0 - nthZ ldc ci)) as [dcd ctx'] eqn:Ed.
     destruct (aseq_enc_mcu cs mt bt (upd ci (nth 0%nat b 0) ldc) (upd ci ctx' ctx)) as [[[rest l1] c1]|] eqn:Er; [|discriminate].
     injection He as <- <- <-. rewrite <- !app_assoc in Hc. cbn [aseq_dec_mcu].
-    set (more1 := rekey (ack (a_act (cmp cs ci))) (enc_acf_block_a (a_K (cmp cs ci)) 1 63 0 b) ++ rest ++ more) in *.
-    destruct (arith_dc_roundtrip qdec (next_k (dck (a_dct (cmp cs ci)))) (carriesK (dck (a_dct (cmp cs ci))) more1) (carriesK_step _ more1)
-                _ _ _ _ dcd ctx' [] q Hv Ed) as [q1 [Hd1 Hc1]].
-    { unfold carriesK. rewrite app_nil_r. exact Hc. }
-    rewrite Hd1. unfold carriesK in Hc1. cbn [rekey map app] in Hc1. unfold more1 in Hc1.
+    destruct (dc_k (dck (a_dct (cmp cs ci))) _ _ _ _ dcd ctx' q _ Hv Ed Hc) as [q1 [Hd1 Hc1]].
+    rewrite Hd1.
     rewrite nthZ_map_mod. rewrite Zplus_mod_idemp_l. replace (nthZ ldc ci + (nth 0%nat b 0 - nthZ ldc ci)) with (nth 0%nat b 0) by lia.
     rewrite (s16_mod _ Hr).
-    set (more2 := rest ++ more) in *.
-    destruct (acf_block_a_rt qdec (next_k (ack (a_act (cmp cs ci)))) (carriesK (ack (a_act (cmp cs ci))) more2) (carriesK_step _ more2)
-                (a_K (cmp cs ci)) 63 0 1 b (upd 0 (nth 0%nat b 0) (repeat 0 64)) [] q1 ltac:(lia) ltac:(lia) Hac) as [q2 [Hd2 Hc2]].
-    { unfold carriesK. rewrite app_nil_r. exact Hc1. }
-    rewrite Hd2. rewrite (seq_block_res b Hb). unfold carriesK in Hc2. cbn [rekey map app] in Hc2. unfold more2 in Hc2.
+    destruct (acf_block_k (ack (a_act (cmp cs ci))) (a_K (cmp cs ci)) 1 63 0 b (upd 0 (nth 0%nat b 0) (repeat 0 64)) q1 (rest ++ more)
+                ltac:(clear; lia) ltac:(clear; lia) Hac Hc1) as [q2 [Hd2 Hc2]].
+    rewrite Hd2. rewrite (seq_block_res b Hb).
     rewrite <- (map_upd (fun x => x mod 65536)).
     destruct (IH bt _ _ q2 more rest l1 c1 Er Hok' Hc2) as [q3 [Hd3 Hc3]]. rewrite Hd3.
     exists q3. split; [reflexivity|exact Hc3].
@@ -273,10 +289,141 @@ Proof.
   cbn [length aseq_dec_mcus]. rewrite Hd. rewrite (IH l1 c1 q1 more r Et Hok' Hc1). reflexivity.
 Qed.
 
-Theorem aseq_scan_roundtrip cs mem ncomp Ri ms bytes :
-  (forall seg, (exists k, seg = seg_take Ri (Nat.iter k (seg_drop Ri) ms)) ->
-     amcus_ok cs mem seg (repeat 0 ncomp) (repeat 0 ncomp)) ->
+Definition ablk_ok (b : list Z) : Prop :=
+  length b = 64%nat /\ -16384 <= nth 0%nat b 0 < 16384 /\ Forall (fun v => Z.abs v <= 32768) (acf_band 1 63 0 b).
+Definition ldc_ok (ldc : list Z) : Prop := Forall (fun x => -16384 <= x < 16384) ldc.
+
+Lemma ldc_ok_nth ldc ci : ldc_ok ldc -> -16384 <= nthZ ldc ci < 16384.
+Proof.
+  intros H. unfold nthZ. destruct (Nat.lt_ge_cases ci (length ldc)) as [Hl|Hl].
+  - unfold ldc_ok in H. rewrite Forall_forall in H. apply H. now apply nth_In.
+  - rewrite nth_overflow by lia. lia.
+Qed.
+Lemma ldc_ok_upd ldc ci x : ldc_ok ldc -> -16384 <= x < 16384 -> ldc_ok (upd ci x ldc).
+Proof.
+  unfold ldc_ok. revert ci. induction ldc as [|a l IH]; intros [|ci] H Hx; cbn; auto; inversion H; subst; constructor; auto.
+Qed.
+
+Lemma amcu_ok_local : forall mm blocks ldc, Forall ablk_ok blocks -> ldc_ok ldc -> amcu_ok mm blocks ldc.
+Proof.
+  induction mm as [|ci mt IH]; intros blocks ldc HF Hl; [destruct blocks; exact I|].
+  destruct blocks as [|b bt]; [exact I|]. inversion HF as [|? ? (Hb & Hr & Hac) Ht]; subst. cbn [amcu_ok].
+  pose proof (ldc_ok_nth ldc ci Hl). repeat split; try lia; auto. apply IH; [exact Ht|now apply ldc_ok_upd].
+Qed.
+
+Lemma aseq_enc_mcu_ldc cs : forall mm blocks ldc ctx ds l' c', Forall ablk_ok blocks -> ldc_ok ldc ->
+  aseq_enc_mcu cs mm blocks ldc ctx = Some (ds, l', c') -> ldc_ok l'.
+Proof.
+  induction mm as [|ci mt IH]; intros blocks ldc ctx ds l' c' HF Hl He.
+  - destruct blocks; [|discriminate]. cbn in He. injection He as <- <- <-. exact Hl.
+  - destruct blocks as [|b bt]; [discriminate|]. cbn [aseq_enc_mcu] in He. inversion HF as [|? ? (Hb & Hr & Hac) Ht]; subst.
+    destruct (enc_dc_arith _ _ _ _) as [dcd ctx'].
+    destruct (aseq_enc_mcu cs mt bt _ _) as [[[rest l1] c1]|] eqn:Er; [|discriminate]. injection He as <- <- <-.
+    apply (IH bt _ _ _ _ _ Ht (ldc_ok_upd ldc ci _ Hl Hr) Er).
+Qed.
+
+Lemma amcus_ok_local cs mem : forall ms ldc ctx, Forall (Forall ablk_ok) ms -> ldc_ok ldc -> amcus_ok cs mem ms ldc ctx.
+Proof.
+  induction ms as [|m t IH]; intros ldc ctx HF Hl; [exact I|]. inversion HF as [|? ? Hm Ht]; subst. cbn [amcus_ok].
+  split; [now apply amcu_ok_local|].
+  destruct (aseq_enc_mcu cs mem m ldc ctx) as [[[d1 l1] c1]|] eqn:Em; [|exact I].
+  apply IH; [exact Ht|]. exact (aseq_enc_mcu_ldc cs mem m ldc ctx d1 l1 c1 Hm Hl Em).
+Qed.
+
+Lemma map_mod_zeros n : map (fun x => x mod 65536) (repeat 0 n) = repeat 0 n.
+Proof. induction n; cbn; [reflexivity|now rewrite IHn]. Qed.
+
+Theorem aseq_scan_roundtrip cs mem ncomp Ri ms bytes : Forall (Forall ablk_ok) ms ->
   aseq_enc_scan cs mem ncomp Ri ms = Some bytes ->
   aseq_dec_scan cs mem ncomp Ri (length ms) bytes = Some ms.
 Proof.
-Abort.
+  intros HF He. unfold aseq_dec_scan, aseq_enc_scan in *.
+  pose proof (ascan_roundtrip (list (list Z)) unit (list (list Z))
+    (fun seg => aseq_enc_mcus cs mem seg (repeat 0 ncomp) (repeat 0 ncomp))
+    (fun seg q => aseq_dec_mcus cs mem (length seg) (repeat 0 ncomp) (repeat 0 ncomp) q)
+    (fun m _ => Forall ablk_ok m) (fun m _ => m)) as H.
+  rewrite (H) with (ms := ms) (bytes := bytes).
+  - now rewrite Fseg_fst by (now rewrite repeat_length).
+  - intros ms0 ds dsn [Hl0 HF0] Hs. rewrite Hl0. rewrite (Fseg_fst ms0 ds Hl0).
+    rewrite <- (map_mod_zeros ncomp) at 1.
+    apply (aseq_mcus_rt cs mem ms0 (repeat 0 ncomp) (repeat 0 ncomp) _ [] dsn Hs).
+    + apply amcus_ok_local; [exact (Forall_combine_fst (Forall ablk_ok) ms0 ds Hl0 HF0)|]. unfold ldc_ok. clear. induction ncomp; cbn; constructor; auto; lia.
+    + rewrite app_nil_r. apply carriesQ_init.
+  - split; [now rewrite repeat_length|]. now apply (Forall_combine_fst' (Forall ablk_ok)).
+  - exact He.
+Qed.
+
+(* --------------------------------------------------------- DC first scans *)
+Lemma s16_shift m Al : 0 <= Al -> -32768 <= Z.shiftl m Al < 32768 -> s16 (Z.shiftl (m mod 65536) Al) = Z.shiftl m Al.
+Proof.
+  intros HA Hr. rewrite !Z.shiftl_mul_pow2 in * by lia. rewrite <- (s16_mod (m * 2 ^ Al) Hr). unfold s16.
+  rewrite Z.mul_mod_idemp_l by lia. rewrite Z.mod_mod by lia. reflexivity.
+Qed.
+
+Definition adcf_blk_ok (Al : Z) (b : list Z) : Prop := -16384 <= nth 0%nat b 0 < 16384.
+
+Lemma pt_dc_range Al x : 0 <= Al <= 13 -> -16384 <= x < 16384 -> -16384 <= pt_dc Al x < 16384 /\ -32768 <= Z.shiftl (pt_dc Al x) Al < 32768.
+Proof.
+  intros HA Hx. unfold pt_dc. rewrite Z.shiftr_div_pow2, Z.shiftl_mul_pow2 by lia.
+  assert (Hp : 1 <= 2 ^ Al) by (apply (Z.pow_le_mono_r 2 0 Al); lia).
+  assert (Hp2 : 2 ^ Al <= 8192) by (apply (Z.pow_le_mono_r 2 Al 13); lia).
+  pose proof (Z.div_mod x (2 ^ Al) ltac:(lia)) as Hdm. pose proof (Z.mod_pos_bound x (2 ^ Al) ltac:(lia)) as Hmb.
+  assert (Hq1 : -16384 <= x / 2 ^ Al) by (apply Z.div_le_lower_bound; nia).
+  assert (Hq2 : x / 2 ^ Al < 16384) by (apply Z.div_lt_upper_bound; nia).
+  split; [split; [exact Hq1|exact Hq2]|]. nia.
+Qed.
+
+Lemma adcf_mcu_rt cs Al : 0 <= Al <= 13 -> forall mm blocks cur ldc ctx q more ds l' c',
+  adcf_enc_mcu cs Al mm blocks ldc ctx = Some (ds, l', c') -> length cur = length blocks ->
+  Forall (adcf_blk_ok Al) blocks -> ldc_ok ldc -> carriesQ q (ds ++ more) ->
+  exists q', adcf_dec_mcu cs Al mm cur (map (fun x => x mod 65536) ldc) ctx q =
+               Some (dcf_res Al blocks cur, map (fun x => x mod 65536) l', c', q') /\ carriesQ q' more /\ ldc_ok l'.
+Proof.
+  intros HA. induction mm as [|ci mt IH]; intros blocks cur ldc ctx q more ds l' c' He Hl HF Hok Hc.
+  - destruct blocks; [|discriminate]. destruct cur; [|discriminate]. cbn in He. injection He as <- <- <-.
+    exists q. split; [reflexivity|]. split; [exact Hc|exact Hok].
+  - destruct blocks as [|b bt]; [discriminate|]. destruct cur as [|c ct]; [discriminate|]. cbn [adcf_enc_mcu] in He.
+    inversion HF as [|? ? Hb Ht]; subst. unfold adcf_blk_ok in Hb. destruct (pt_dc_range Al _ HA Hb) as [Hm Hs].
+    pose proof (ldc_ok_nth ldc ci Hok) as Hn.
+    destruct (enc_dc_arith (nthZ ctx ci) (a_L (cmp cs ci)) (a_U (cmp cs ci)) (pt_dc Al (nth 0%nat b 0) - nthZ ldc ci)) as [dcd ctx'] eqn:Ed.
+    destruct (adcf_enc_mcu cs Al mt bt (upd ci (pt_dc Al (nth 0%nat b 0)) ldc) (upd ci ctx' ctx)) as [[[rest l1] c1]|] eqn:Er; [|discriminate].
+    injection He as <- <- <-. rewrite <- app_assoc in Hc. cbn [adcf_dec_mcu].
+    assert (Hv : Z.abs (pt_dc Al (nth 0%nat b 0) - nthZ ldc ci) <= 32768) by lia.
+    destruct (dc_k (dck (a_dct (cmp cs ci))) _ _ _ _ dcd ctx' q _ Hv Ed Hc) as [q1 [Hd1 Hc1]]. rewrite Hd1.
+    rewrite nthZ_map_mod. rewrite Zplus_mod_idemp_l.
+    replace (nthZ ldc ci + (pt_dc Al (nth 0%nat b 0) - nthZ ldc ci)) with (pt_dc Al (nth 0%nat b 0)) by lia.
+    rewrite <- (map_upd (fun x => x mod 65536)). cbn [length] in Hl.
+    destruct (IH bt ct _ _ q1 more rest l1 c1 Er ltac:(lia) Ht (ldc_ok_upd ldc ci _ Hok Hm) Hc1) as [q2 [Hd2 [Hc2 Hok2]]]. rewrite Hd2.
+    rewrite (s16_shift _ Al (proj1 HA) Hs). exists q2. split; [reflexivity|]. split; [exact Hc2|exact Hok2].
+Qed.
+
+Lemma adcf_mcus_rt cs mem Al : 0 <= Al <= 13 -> forall ms cur ldc ctx q more ds,
+  adcf_enc_mcus cs mem Al ms ldc ctx = Some ds -> length cur = length ms ->
+  Forall (fun mc => length (snd mc) = length (fst mc) /\ Forall (adcf_blk_ok Al) (fst mc)) (combine ms cur) ->
+  ldc_ok ldc -> carriesQ q (ds ++ more) ->
+  adcf_dec_mcus cs mem Al cur (map (fun x => x mod 65536) ldc) ctx q = Some (map (fun mc => dcf_res Al (fst mc) (snd mc)) (combine ms cur)).
+Proof.
+  intros HA. induction ms as [|m t IH]; intros cur ldc ctx q more ds He Hl HF Hok Hc.
+  - destruct cur; [reflexivity|discriminate].
+  - destruct cur as [|c ct]; [discriminate|]. cbn [combine] in HF. inversion HF as [|? ? [Hm1 Hm2] Ht]; subst. cbn [fst snd] in Hm1, Hm2.
+    cbn [adcf_enc_mcus] in He.
+    destruct (adcf_enc_mcu cs Al mem m ldc ctx) as [[[d1 l1] c1]|] eqn:Em; [|discriminate].
+    destruct (adcf_enc_mcus cs mem Al t l1 c1) as [r|] eqn:Et; [|discriminate]. injection He as <-.
+    rewrite <- app_assoc in Hc.
+    destruct (adcf_mcu_rt cs Al HA mem m c ldc ctx q _ d1 l1 c1 Em Hm1 Hm2 Hok Hc) as [q1 [Hd [Hc1 Hok1]]].
+    cbn [adcf_dec_mcus]. rewrite Hd. cbn [length] in Hl. rewrite (IH ct l1 c1 q1 more r Et ltac:(lia) Ht Hok1 Hc1). reflexivity.
+Qed.
+
+Theorem adcf_scan_roundtrip cs mem Al ncomp Ri ms cur bytes : 0 <= Al <= 13 -> length cur = length ms ->
+  Forall (fun mc => length (snd mc) = length (fst mc) /\ Forall (adcf_blk_ok Al) (fst mc)) (combine ms cur) ->
+  adcf_enc_scan cs mem Al ncomp Ri ms = Some bytes ->
+  adcf_dec_scan cs mem Al ncomp Ri cur bytes = Some (map (fun mc => dcf_res Al (fst mc) (snd mc)) (combine ms cur)).
+Proof.
+  intros HA Hl HF He. unfold adcf_dec_scan, adcf_enc_scan in *.
+  apply (ascan_roundtrip _ _ _ (fun seg => adcf_enc_mcus cs mem Al seg (repeat 0 ncomp) (repeat 0 ncomp)) _
+           (fun m c => length c = length m /\ Forall (adcf_blk_ok Al) m) (fun m c => dcf_res Al m c)); [|split; assumption|exact He].
+  intros ms0 ds dsn [Hl0 HF0] Hs. rewrite <- (map_mod_zeros ncomp) at 1.
+  apply (adcf_mcus_rt cs mem Al HA ms0 ds (repeat 0 ncomp) (repeat 0 ncomp) _ [] dsn Hs Hl0 HF0).
+  - unfold ldc_ok. clear. induction ncomp; cbn; constructor; auto; lia.
+  - rewrite app_nil_r. apply carriesQ_init.
+Qed.
